@@ -16,6 +16,35 @@ arrays keep dtype, shape and values, 1-D arrays of at most ten items come back a
 theorem value_roundtrip (v : PV) (h : WF v) : decode (encode v) = canon v :=
   Lemmas.value_roundtrip v h
 
+/-- Arrays keep dtype, shape and values for every memory layout (1): an array that is not a short 1-D
+non-complex one comes back as an array whose dtype string is the saved one (byte order included: it
+is read from the marker's `dtype` entry), whose shape is the saved one (read from the `shape` entry),
+C-contiguous, holding `np.ascontiguousarray` of the saved array.  The array is given as NumPy has it:
+(shape, strides, offset, buffer) — C order, Fortran order, transposed, strided, reversed views are
+particular strides/offsets. -/
+theorem array_roundtrip (dtype : String) (shape : List Nat) (strides : List Int) (off : Int) (mem : List Int)
+    (hbig : ∀ n, shape = [n] → (n ≤ 10 && !isComplexDtype dtype) = false) :
+    decode (encode (.arr dtype shape strides off mem)) =
+      .arr dtype shape (cStrides shape) 0 (gather mem shape strides off) :=
+  Lemmas.array_roundtrip dtype shape strides off mem hbig
+
+/-- Arrays keep … (2): element by element.  For every multi-index inside the shape, the element of
+the array that comes back equals the element of the saved array at that multi-index, for every
+(strides, offset) with one stride per axis.  (Both sides read the same buffer position of the saved
+array, so no in-bounds hypothesis is needed; a real array's positions are in bounds.) -/
+theorem array_elements_preserved (shape : List Nat) (strides : List Int) (off : Int) (mem : List Int)
+    (idx : List Nat) (hl : strides.length = shape.length) (hi : IdxOK shape idx) :
+    getAt (cStrides shape) 0 (gather mem shape strides off) idx = getAt strides off mem idx :=
+  Lemmas.array_elements_preserved shape strides off mem idx hl hi
+
+/-- One-dimensional arrays of at most ten items (non-complex dtype) come back as the list of their
+elements in index order, whatever the stride (`a[::2]`, `a[::-1]`). -/
+theorem small_array_roundtrip (dtype : String) (n : Nat) (s : Int) (off : Int) (mem : List Int)
+    (hn : n ≤ 10) (hc : isComplexDtype dtype = false) :
+    decode (encode (.arr dtype [n] [s] off mem)) =
+      .list (ofInts ((List.range n).map fun (i : Nat) => getMem mem (off + (i : Int) * s))) :=
+  Lemmas.small_array_roundtrip dtype n s off mem hn hc
+
 /-- Integer top-level keys stay integers (negative ones included), other string keys stay strings. -/
 theorem key_roundtrip (hs : IntStrOK) (k : Key) (hk : KeyOK k) : intifyKey (stringifyKey k) = k :=
   Lemmas.key_roundtrip hs k hk
@@ -83,15 +112,26 @@ theorem tsv_first_field_first (render : Cell → String) (rows : List (List (Str
   Lemmas.tsv_first_field_first render rows f hf file hw
 
 /-! Non-vacuity -/
-example : decode (encode (.arr "int32" [3] [1, 2, 3])) = .list (.cons (.int 1) (.cons (.int 2) (.cons (.int 3) .nil))) := by
-  have hc : isComplexDtype "int32" = false := by decide
-  simp [encode, decode, decodeList, ofInts, hc]
-example : decode (encode (.list (.cons (.arr ">f4" [2, 2] [1, 2, 3, 4]) (.cons (.npScalar 7) .nil)))) =
-    .list (.cons (.arr ">f4" [2, 2] [1, 2, 3, 4]) (.cons (.int 7) .nil)) := by
-  simp [encode, encodeList, decode, decodeList, marker, findArr]
+example : decode (encode (.arr "int32" [3] [1] 0 [1, 2, 3])) = .list (.cons (.int 1) (.cons (.int 2) (.cons (.int 3) .nil))) := by
+  rfl
+-- a reversed view `a[::-1]` of a buffer of 3 items
+example : decode (encode (.arr "int32" [3] [-1] 2 [1, 2, 3])) = .list (.cons (.int 3) (.cons (.int 2) (.cons (.int 1) .nil))) := by
+  rfl
+-- a Fortran-ordered 2x3 array (strides 1, 2) inside a list, big-endian dtype: comes back C-contiguous
+-- with the same shape and dtype, elements in row-major order
+example : decode (encode (.list (.cons (.arr ">f4" [2, 3] [1, 2] 0 [10, 20, 11, 21, 12, 22]) (.cons (.npScalar 7) .nil)))) =
+    .list (.cons (.arr ">f4" [2, 3] [3, 1] 0 [10, 11, 12, 20, 21, 22]) (.cons (.int 7) .nil)) := by
+  rfl
+-- the hook reads dtype and shape from the marker: other entries give another array
+example : decode (.dict (.cons "__ndarray__" (.payload "int16" [1, 2, 3, 4, 5, 6])
+      (.cons "dtype" (.str "int16") (.cons "shape" (.list (ofNats [3, 2])) .nil)))) =
+    .arr "int16" [3, 2] [2, 1] 0 [1, 2, 3, 4, 5, 6] := by rfl
+example : IdxOK [2, 3] [1, 2] ∧ getAt [1, 2] 0 [10, 20, 11, 21, 12, 22] [1, 2] = 22 ∧
+    getAt (cStrides [2, 3]) 0 (gather [10, 20, 11, 21, 12, 22] [2, 3] [1, 2] 0) [1, 2] = 22 :=
+  ⟨by simp [IdxOK], by decide, by decide⟩
 example : intifyKey (stringifyKey (.int (-1))) = .int (-1) := by decide
 example : intifyKey (stringifyKey (.str "12")) = .int 12 := by decide     -- why digit strings are out of scope
-example : writeTsv (fun c => match c with | .int i => toString i | .float t => s!"f{t}" | .text s => s)
+example : writeTsv (fun (c : Cell) => match c with | .int i => toString i | .float t => s!"f{t}" | .text s => s)
     [[("id", .int 3), ("b", .text "x")], [("a", .float 1), ("id", .int 4)]] (some "id") =
     some (["id", "a", "b"], [["3", "", "x"], ["4", "f1", ""]]) := by decide
 -- the concrete `str` / `_try_make_number` pair: int column + label column, some fields absent
